@@ -12,6 +12,6 @@ INIT Init
 NEXT Next
 CONSTRAINT Bounded
 VIEW View
-INVARIANTS TypeOK UidsAscending UidValidityDistinct
+INVARIANTS TypeOK UidsAscending UidValidityDistinct AllDefined
 PROPERTIES UidsNeverReused UidValidityFresh AppendUidExact CopyUidExact StoreExact RemovalExact QueriesPure
 CHECK_DEADLOCK FALSE
